@@ -272,3 +272,45 @@ class ConvertToUnits(_Route):
     def replay(self, model, label):
         return route_replay(model, "convert_to_units")
 
+
+
+class ToValue(_Route):
+    """x.to_value(units): the bare numbers of the quantity expressed in `units` -- an ndarray for
+    an array, a Python float for a unyt_quantity (complex data: complex); the input is untouched"""
+    name = "unyt.array.unyt_array.to_value"
+    xcls = "unyt_array"
+    callsite_disabled = True
+
+    def make_self(self, it):
+        return N.make_unyt_array(it, "self", cls=self.xcls)
+
+    def requires(self, it, a):
+        out = _Route.requires(self, it, a)
+        if self.xcls == "unyt_quantity":
+            out.append(("a unyt_quantity is 0-d and holds real data (complex quantities take the complex() arm, "
+                        "not modelled)", z3.And(to_z3(N.arr_scalar(a.self)), to_z3(N.arr_kind(a.self)) != N.sv("c"))))
+        return out
+
+    def ensures(self, it, a, r, old):
+        P = it.domain.prefix_table(it)
+        it.ctx.instantiate(old["elem"])
+        if self.xcls == "unyt_quantity":
+            ok = is_z3(r) or isinstance(r, (int, float, Fraction))
+            val = to_real(r) if ok else None
+            shape = [("a unyt_quantity gives a Python number", ok)]
+        else:
+            ok = N.is_array(r) and not N.is_unyt_array(r)
+            val = to_real(N.arr_elem(r)) if ok else None
+            shape = [("an array gives a bare ndarray", ok)]
+        if not ok:
+            return shape
+        return shape + [("the numbers are the quantity's reading in the requested unit",
+                         S.SI(val, a.units, P) == S.SI(old["elem"], old["units"], P))] + self.unchanged(a, old)
+
+    def canary(self, it, a, r, old):
+        return None
+
+
+class ToValueQuantity(ToValue):
+    tag = "quantity"
+    xcls = "unyt_quantity"
